@@ -222,6 +222,10 @@ func newHostRunner(c *sexp.S) (*hostRunner, error) {
 		return nil, nil
 	})
 	recorder := h.recorder
+	if c.Find("bare") != nil {
+		// a host that registers nothing before the run starts: every handler it has arrives through addcmd
+		return h, nil
+	}
 	dr.AddCommand("cmd", recorder("cmd"))
 	if cmds := c.Find("cmds"); cmds != nil {
 		for _, n := range cmds.Args() {
@@ -550,7 +554,7 @@ func Run(c *sexp.S, out *Out) {
 			setValue(r.storer, a[1].GoString(), decodeValue(a[2]))
 			out.Put("HSET%s", r.state())
 		case "hrev":
-			// the host replaces a string variable by its reversal: another value of exactly the same length
+			// the host replaces a string variable by another value of exactly the same length (letters and digits rotated by one)
 			r := runners[a[0].Int()]
 			if r == nil {
 				out.Put("NORUNNER")
@@ -558,8 +562,15 @@ func Run(c *sexp.S, out *Out) {
 			}
 			if v, ok := r.storer.GetValue(a[1].GoString()); ok && v.String != nil {
 				rs := []rune(*v.String)
-				for i, k := 0, len(rs)-1; i < k; i, k = i+1, k-1 {
-					rs[i], rs[k] = rs[k], rs[i]
+				for i, c := range rs {
+					switch {
+					case c >= 'a' && c <= 'z':
+						rs[i] = 'a' + (c-'a'+1)%26
+					case c >= 'A' && c <= 'Z':
+						rs[i] = 'A' + (c-'A'+1)%26
+					case c >= '0' && c <= '9':
+						rs[i] = '0' + (c-'0'+1)%10
+					}
 				}
 				r.storer.SetStringValue(a[1].GoString(), string(rs))
 			}
